@@ -2,7 +2,7 @@
    re-feed clause fails.  Statements in Spec/C01_Wild_Spec.v.  The real Forkable delivers exactly the events of
    Example c01_wild_trace (notes_proof_T1/wild_lib_test.go, TestT1WildLibRefeedDelivers). *)
 From BV Require Import Base.Prelude Model.Block Model.ForkDB Model.Forkable Spec.Consumer Spec.Universe
-  Spec.C01_Spec Spec.C01_Moving_Spec Spec.C01_Roots_Spec Spec.C01_Wild_Spec.
+  Spec.C01_Spec Spec.C01_Moving_Spec Spec.C01_Roots_Spec Spec.C01_Wild_Spec Proofs.C01_Wild_Proofs.
 Local Open Scope N_scope.
 
 (* Witness 1.  LIB r0 = (1, 10) exclusive, keptFinalBlocks = 2, all-blocks-trigger, first streamable block 12.
@@ -64,3 +64,50 @@ Proof.
   repeat split; try reflexivity; try discriminate; repeat constructor.
 Qed.
 Print Assumptions c01_incoherent_lib_refeed_witness.
+
+(* ================================================================ what holds for arbitrary declarations *)
+
+(* partial (two of the three clauses of c01_statement, for EVERY well-formed history and every configured LIB
+   with a non-empty id): the Undo/New discipline and the error clause; no panic, no fuel exhaustion.
+   Proofs/Fk/WildWalks.v, Proofs/Fk/WildLibInv.v (invariant on ids and ancestry, no LIB number), Proofs/C01_Wild_Proofs.v *)
+Theorem c01_wild_discipline_partial : c01_wild_discipline_statement.
+Proof. exact c01_wild_discipline_proved. Qed.
+Print Assumptions c01_wild_discipline_partial.
+
+(* partial: the whole of c01_statement under the run condition "the LIB number never decreases" *)
+Theorem c01_wild_mono_partial : c01_wild_mono_statement.
+Proof. exact c01_wild_mono_proved. Qed.
+Print Assumptions c01_wild_mono_partial.
+
+(* the class of c01_moving_lib_roots_partial is a sub-class of the class of c01_wild_mono_partial *)
+Theorem c01_wild_mono_subsumes_roots : c01_wild_mono_subsumes.
+Proof. exact c01_wild_mono_subsumes_proved. Qed.
+Print Assumptions c01_wild_mono_subsumes_roots.
+
+(* non-vacuity of c01_wild_mono_partial OUTSIDE the old classes: block 3 declares 12, strictly between the
+   heights 11 and 15 of two ancestors (LIB := (3, 12)); block 9 declares 30, above its own height 18
+   (LIB := (9, 30), block 9 itself is purged); blocks 3, 7, 5 are fed again; a fork switch; block 10 hangs
+   under the purged LIB block.  The LIB number never decreases, everything holds. *)
+Definition wm_cfg : config := mkCfg 0 false false 1 false (mkFilter true true true true) None.
+Definition wm_hist : list block :=
+  [ mkBlock 2 11 1 10; mkBlock 3 15 2 12; mkBlock 7 13 2 10; mkBlock 4 16 3 13; mkBlock 3 15 2 12; mkBlock 8 17 7 19;
+    mkBlock 5 17 4 16; mkBlock 7 13 2 10; mkBlock 9 18 4 30; mkBlock 5 17 4 16; mkBlock 10 31 9 18; mkBlock 11 19 5 16 ].
+
+Example c01_wild_mono_nonvacuous :
+  rooted_mode wl_r0 (LExcl wl_r0) /\ wf_b wm_hist = true /\ ri wl_r0 <> 0 /\
+  lib_mono_b (cfg_nofail wm_cfg) (fs_init (LExcl wl_r0)) wm_hist = true /\
+  lib_anc_ok_b (LExcl wl_r0) wm_hist = false /\ moving_scope2_b wl_r0 wm_hist = false /\
+  wl_show (fk_run wm_cfg (fs_init (LExcl wl_r0)) wm_hist) =
+    [ ([(SNew, 2)], ROk); ([(SNew, 3); (SIrr, 2); (SIrr, 3)], ROk); ([], ROk); ([(SNew, 4)], ROk); ([], ROk); ([], ROk);
+      ([(SNew, 5); (SIrr, 4)], ROk); ([], ROk); ([(SUndo, 5); (SNew, 9); (SIrr, 9)], ROk); ([], ROk);
+      ([(SNew, 10)], ROk); ([], ROk) ] /\
+  map (fun s => libref (db s)) (fk_states wm_cfg (fs_init (LExcl wl_r0)) wm_hist) =
+    [ mkR 1 10; mkR 3 12; mkR 3 12; mkR 3 12; mkR 3 12; mkR 3 12; mkR 4 16; mkR 4 16; mkR 9 30; mkR 9 30; mkR 9 30; mkR 9 30 ].
+Proof. split; [left; reflexivity|]. vm_compute. repeat split; try reflexivity; discriminate. Qed.
+
+(* the two witnesses meet every hypothesis of c01_wild_discipline_partial (so their discipline and error
+   clauses are instances of the theorem) and violate exactly the run condition of c01_wild_mono_partial *)
+Example c01_wild_witnesses_in_discipline_class :
+  wf_b wl_hist = true /\ ri wl_r0 <> 0 /\ lib_mono_b (cfg_nofail wl_cfg) (fs_init (LExcl wl_r0)) wl_hist = false /\
+  wf_b il_hist = true /\ ri il_r0 <> 0 /\ lib_mono_b (cfg_nofail il_cfg) (fs_init (LExcl il_r0)) il_hist = false.
+Proof. vm_compute. repeat split; try reflexivity; discriminate. Qed.
